@@ -532,6 +532,20 @@ class Fn:
         self.blocks = {}
         self.arg_types = []
         self.ret_type = None
+        self.debug = {}          # source variable name -> [local indices] in declaration order
+
+    def loop_heads(self):
+        """blocks that are the target of a back edge (`goto -> bbK` from a block numbered >= K), non-cleanup"""
+        self.parse()
+        heads = set()
+        for i, b in self.blocks.items():
+            if b.cleanup:
+                continue
+            for t in b.raw[-1:]:
+                m = re.match(r'^goto -> bb(\d+);$', t)
+                if m and int(m.group(1)) <= i:
+                    heads.add(int(m.group(1)))
+        return sorted(heads)
 
     def parse(self):
         if self._parsed:
@@ -556,6 +570,7 @@ class Fn:
                 self.ret_type = '()'
         cur = None
         let_re = re.compile(r'^let (?:mut )?_(\d+): (.*);$')
+        dbg_re = re.compile(r'^debug ([A-Za-z_][A-Za-z_0-9]*) => _(\d+);$')
         bb_re = re.compile(r'^bb(\d+)( \(cleanup\))?: \{$')
         for ln in self.lines:
             t = ln.strip()
@@ -571,6 +586,10 @@ class Fn:
                 m = let_re.match(t)
                 if m:
                     self.local_types[int(m.group(1))] = m.group(2)
+                    continue
+                m = dbg_re.match(t)
+                if m:
+                    self.debug.setdefault(m.group(1), []).append(int(m.group(2)))
                 continue
             if t == '}':
                 cur = None
